@@ -44,6 +44,9 @@ let () =
       | "Q" :: k :: a :: b :: _ ->
         let r = d_row (e_reg k0) !s (nat_of_int (int_of_string k)) (nat_of_int (int_of_string a)) (nat_of_int (int_of_string b)) in
         Printf.printf "Q ret=%s\n" (String.concat "," (List.map (fun z -> string_of_int (int_of_z z)) r))
+      | "V" :: k :: a :: b :: _ ->
+        let r = d_row (e_kernel k0) !blk (nat_of_int (int_of_string k)) (nat_of_int (int_of_string a)) (nat_of_int (int_of_string b)) in
+        Printf.printf "V ret=%s\n" (String.concat "," (List.map (fun z -> string_of_int (int_of_z z)) r))
       | "W" :: k :: e :: _ ->
         let r = d_row (e_reg k0) !s (nat_of_int (int_of_string k)) O (nat_of_int (int_of_string e)) in
         Printf.printf "W ret=%s\n" (String.concat "," (List.map (fun z -> string_of_int (int_of_z z)) r))
